@@ -116,36 +116,92 @@ def run(pm, ctx):
     ck = kr.methods.get("_compute_kernel")
     if ck is None:
         raise AnalysisError("anchor vanished: KernelRIM._compute_kernel")
+    from ..match import resolve_expr, cfg_node
+    xk = func_params(ck)[1]
+    cfgk = CFG(ck)
     kcalls = []
     for n in ast.walk(ck):
         if isinstance(n, ast.Call) and (call_name(n) in ("self.base_kernel", "pairwise_kernels")):
             kcalls.append(n)
-    okb = len(kcalls) >= 2 and all(len(c.args) >= 2 and norm_src(c.args[0]) == func_params(ck)[1] and norm_src(c.args[1]) == "self.input_data_" for c in kcalls)
-    rets = [n for n in ast.walk(ck) if isinstance(n, ast.Return)]
-    if okb and len(rets) == 1:
-        ctx.ok("C18-b", "KernelRIM._compute_kernel: kernel(X, self.input_data_) on every branch")
+    site = "KernelRIM._compute_kernel: kernel(X, self.input_data_) on every branch"
+    if not kcalls:
+        ctx.unrecognised("C18-b", site, "no kernel call (self.base_kernel / pairwise_kernels)")
     else:
-        ctx.violation("C18-b", kr.unit.relpath, "KernelRIM._compute_kernel", norm_src(kcalls[0]) if kcalls else "kernel call",
-                      "the kernel is not computed between the given points and the stored training data on every branch", line=ck.lineno)
+        bad = None
+        for c in kcalls:
+            st = cfg_node(cfgk, c)
+            a0 = norm_src(resolve_expr(cfgk, st, c.args[0])) if c.args else None
+            a1 = c.args[1] if len(c.args) > 1 else next((k.value for k in c.keywords if k.arg == "Y"), None)
+            a1s = norm_src(resolve_expr(cfgk, st, a1)) if a1 is not None else None
+            if a0 != xk:
+                bad = (c, f"its first argument is {a0}, not the points to predict")
+            elif a1s != "self.input_data_":
+                bad = (c, "the kernel is computed among the given points themselves" if a1s is None else f"its second argument is {a1s}, not the stored training data")
+        if bad:
+            ctx.violation("C18-b", kr.unit.relpath, "KernelRIM._compute_kernel", norm_src(bad[0])[:120], "the kernel is not computed between the given points and the stored "
+                          "training data on every branch: " + bad[1], line=bad[0].lineno, site=site)
+        else:
+            ctx.ok("C18-b", site, f"{len(kcalls)} kernel calls")
     fit = kr.methods.get("fit")
-    src = [norm_src(s) for s in fit.body]
-    try:
-        i_store = src.index("self.input_data_ = X")
-        i_k = next(i for i, s in enumerate(src) if "self._compute_kernel(X)" in s)
-        okf = i_store < i_k and any("super().fit(training_kernel, y)" in s for s in src)
-    except (ValueError, StopIteration):
-        okf = False
-    if okf:
-        ctx.ok("C18-b", "KernelRIM.fit: training data stored, then kernel computed through _compute_kernel and handed to the linear fit")
+    cfgf = CFG(fit)
+    xf = func_params(fit)[1]
+    stores = [s_ for s_ in cfgf.nodes if isinstance(s_, ast.Assign) and any(attr_chain(t) == "self.input_data_" for t in s_.targets)]
+    kuse = [s_ for s_ in cfgf.nodes if any(isinstance(c, ast.Call) and call_name(c) == "self._compute_kernel" for e in cfgf.header_exprs(s_) for c in ast.walk(e))]
+    site = "KernelRIM.fit: training data stored, then kernel computed through _compute_kernel and handed to the linear fit"
+    if not stores or not kuse:
+        ctx.unrecognised("C18-b", site, "no store of input_data_ / no call of _compute_kernel in fit")
     else:
-        ctx.violation("C18-b", kr.unit.relpath, "KernelRIM.fit", "input_data_/training_kernel", "fit does not store the training data before "
-                      "computing the training kernel through _compute_kernel", line=fit.lineno)
+        v = stores[0].value
+        core = v
+        while True:
+            if isinstance(core, ast.Call) and isinstance(core.func, ast.Attribute) and core.func.attr == "copy" and not core.args:
+                core = core.func.value
+            elif isinstance(core, ast.Call) and call_name(core) in ("np.array", "np.asarray", "np.copy", "check_array", "np.ascontiguousarray") and core.args:
+                core = core.args[0]
+            else:
+                break
+        names = {n.id for n in ast.walk(v) if isinstance(n, ast.Name)} - {"np"}
+        if isinstance(core, ast.Name) and core.id == xf:
+            if all(cfgf.dominates(stores[0], k_) for k_ in kuse):
+                ctx.ok("C18-b", site, norm_src(stores[0]))
+            else:
+                ctx.violation("C18-b", kr.unit.relpath, "KernelRIM.fit", norm_src(stores[0]), "the training kernel is computed before the training data is stored: "
+                              "_compute_kernel reads a stale or missing input_data_", line=stores[0].lineno, site=site)
+        elif xf not in names:
+            ctx.violation("C18-b", kr.unit.relpath, "KernelRIM.fit", norm_src(stores[0]), f"input_data_ is not the training data ({norm_src(v)[:50]})", line=stores[0].lineno, site=site)
+        else:
+            ctx.unrecognised("C18-b", site, f"input_data_ = {norm_src(v)[:60]}")
     pp = kr.methods.get("predict_proba")
-    psrc = [norm_src(s) for s in pp.body]
-    if "kernel = self._compute_kernel(X)" in psrc and any(s.startswith("return self._infer(kernel") for s in psrc):
-        ctx.ok("C18-b", "KernelRIM.predict_proba = _infer(_compute_kernel(X))")
+    cfgp = CFG(pp)
+    xp = func_params(pp)[1]
+    site = "KernelRIM.predict_proba = _infer(_compute_kernel(X))"
+    rets = [n for n in cfgp.nodes if isinstance(n, ast.Return) and n.value is not None]
+    okp = None
+    for r in rets:
+        full = resolve_expr(cfgp, r, r.value)
+        infer_calls = [c for c in ast.walk(full) if isinstance(c, ast.Call) and call_name(c) == "self._infer"]
+        if not infer_calls:
+            okp = None
+            break
+        a = infer_calls[0].args[0] if infer_calls[0].args else None
+        if isinstance(a, ast.Call) and call_name(a) == "self._compute_kernel" and a.args:
+            inner = a.args[0]
+            core = inner
+            while isinstance(core, ast.Call) and call_name(core) in ("check_array", "np.asarray", "np.array") and core.args:
+                core = core.args[0]
+            okp = isinstance(core, ast.Name) and core.id == xp
+            if not okp:
+                break
+        else:
+            okp = False
+            break
+    if okp is True:
+        ctx.ok("C18-b", site)
+    elif okp is False:
+        ctx.violation("C18-b", kr.unit.relpath, "KernelRIM.predict_proba", "return", "predict_proba does not evaluate the model on the kernel between the given points "
+                      "and the training points (_infer(_compute_kernel(X)))", line=pp.lineno, site=site)
     else:
-        ctx.violation("C18-b", kr.unit.relpath, "KernelRIM.predict_proba", "return", "predict_proba does not go through _compute_kernel", line=pp.lineno)
+        ctx.unrecognised("C18-b", site, "no _infer call in the returned value")
 
     # ---- c: _infer independent of retain (shared with C04-c)
     from .c04 import wiring
